@@ -16,9 +16,15 @@ class RenderProp:
         self.special = special or (lambda rng: None)
         self.nontrivial = nontrivial or (lambda src, out: True)
         self.ndigits = ndigits
+        self.firsts = []        # forced selector values: the first documents of a run go once through each special kind
+        self._n = 0
 
     def gen(self, rng):
-        s = self.special(rng)
+        self._n += 1
+        if self._n <= len(self.firsts):
+            s = self.special(rng, self.firsts[self._n - 1])
+        else:
+            s = self.special(rng)
         pts = []
         if isinstance(s, tuple):
             s, pts = s
